@@ -584,3 +584,57 @@ def rule_size_hint_use(ctx, rule="C11-hint"):
                 ctx.ob(rule, path, "reserves-lower-bound:" + callee_name(t).rsplit("::", 1)[1], ok, line=t.get("line", 0), how="reserves size_hint().0",
                        detail="%s pre-reserves %s: not the lower bound of the size hint" % (path, a))
     ctx.need(rule, "crate", "sites", n >= 2, "only %d size_hint-driven reservations found" % n, how="%d size_hint-driven reservations" % n)
+
+
+def rule_slot_decision(ctx, rule="LAYOUT"):
+    """32-bit only: a block whose capacity exceeds MAX_LEN is allocated with one extra word in front
+    of the header (the on-heap length slot) - allocate_ptr and realloc decide that on the CAPACITY.
+    The pointer handed back to the allocator (realloc / dealloc) must be computed with the same
+    decision: the arm that steps back over the slot is guarded by is_len_heap_layout(header.capacity),
+    not by where the current length happens to be stored (a buffer reserved past MAX_LEN that holds a
+    short text has the slot but an in-handle length)."""
+    F = ctx.F
+    if F.ptr_bits != 32:
+        return
+    n = 0
+    for path in (HB + "dealloc", HB + "realloc"):
+        root = F.bodies.get(path)
+        if not root:
+            continue
+        for st in inlined_sites(root, lambda nm: nm in ("alloc::alloc::dealloc", "alloc::alloc::realloc")):
+            fb = st.body
+            a0 = strip_refs(fb.origin_operand(st.t["args"][0]))
+            while a0[0] == "cast":
+                a0 = strip_refs(a0[2])
+            arms = []
+            if a0[0] == "call" and fb.term(a0[1]).get("local_key") in F.bodies:
+                pb = F.bodies[fb.term(a0[1])["local_key"]]
+                sub = {i + 1: describe(fb, fb.origin_operand(a), 0, st.subst[-1]) for i, a in enumerate(fb.term(a0[1])["args"])}
+                from guards import dominating_edges
+                for (bb, si, x) in pb.defs.get(0, []):
+                    e = ("call", bb) if si == "term" else pb.origin_rvalue(x)
+                    gs_ = described_guards(pb, bb, sub)
+                    for sb, lab in dominating_edges(pb, bb):
+                        # `if len_on_heap {` on a bool parameter: the flag is what the caller passed
+                        de = strip_refs(pb.origin_operand(pb.term(sb)["discr"]))
+                        if pb.term(sb).get("discr_ty") == "bool" and de[0] == "param" and de[1] in sub:
+                            gs_.append(("flag", sub[de[1]], (lab == "otherwise" or lab == 1)))
+                    arms.append((describe(pb, e, 0, sub), gs_))
+            elif a0[0] in ("mem", "local", "phi"):
+                for (bb, si, x) in fb.defs.get(a0[1], []) if a0[0] != "phi" else []:
+                    e = ("call", bb) if si == "term" else fb.origin_rvalue(x)
+                    arms.append((describe(fb, e, 0, st.subst[-1]), described_guards(fb, bb, st.subst[-1])))
+            slot = [(d, gs) for d, gs in arms if d.count("::sub(") >= 2 and ("size_of::<usize>()" in d or "const:%d" % F.ptr_bytes in d)]
+            if not slot:
+                continue
+            n += 1
+            for d, gs in slot:
+                # a predicate of the header's capacity (whatever it is called: is_len_heap_layout(cap),
+                # cap.has_len_slot() ...), possibly computed by the caller and passed in as a flag
+                bycap = any(g[0] == "pred" and g[3] is True and g[2] is not None and re.match(r"^HDR\(p1\)\.\d$", g[2]) for g in gs) or \
+                        any(g[0] == "flag" and g[2] is True and re.search(r"\(HDR\(p1\)\.\d\)$", g[1]) and "TextLen" not in g[1] for g in gs) or \
+                        any(g[0] == "cmp" and g[2] is not None and g[3] is None and re.search(r"HDR\(p1\)\.\d", g[1]) for g in gs)   # capacity > MAX_LEN spelled out
+                bylen = [g for g in gs if (g[0] == "pred" and g[1].endswith("TextLen::is_heap")) or (g[0] == "flag" and "TextLen::is_heap" in g[1])]
+                ctx.ob(rule, path, "slot-decided-on-capacity:" + st.name.rsplit("::", 1)[-1], bycap, line=st.line, how="the allocation start steps back over the length slot exactly when is_len_heap_layout(header.capacity)",
+                       detail="the pointer given to %s steps back over the on-heap length slot %s, while allocate_ptr / realloc create the slot when is_len_heap_layout(capacity): after with_capacity(n) or reserve(n) past MAX_LEN with a short text the slot exists but the pointer is computed without it (freed / reallocated with an address 4 bytes inside the block)" % (st.name, "when the current length is stored on the heap (TextLen::is_heap)" if bylen else "under %s" % [g[:2] for g in gs]))
+    ctx.need(rule, HB + "dealloc", "slot-arm", n >= 1, "no allocation-start computation with a length-slot arm found on this 32-bit target", how="%d allocator sites with a slot arm" % n)
